@@ -66,4 +66,19 @@ example :
      (([b, a, c].foldl (handleDone .and 99) (initSt [0, 1, 2])).out = some (.err ⟨7, true⟩)) ∧
      (([b, a, c].foldl (handleDone .and 99) (initSt [0, 1, 2])).cancels = [0, 2])) := by decide
 
+/-- **Repeated inputs**: `f_or(a, a, b)` / `f_and(…)` with the same future passed several times behaves as with each distinct
+input once - the inputs are kept as dict keys (`keysOf`), and one `handle_done` is registered per key (regenerated fact).  For
+every argument list `args` (repetitions allowed) and every order `ins` in which the distinct inputs finish, the output is the
+`or` / `and` fold over that order. -/
+theorem C14_repeated_inputs (k : Kind) (outId : Nat) (args : List Nat) (ins : List GIn)
+    (hne : ins ≠ []) (hnodup : (ins.map (·.id)).Nodup) (hsame : ∀ i, i ∈ args ↔ i ∈ ins.map (·.id))
+    (hx : ∀ f ∈ ins, ExcTruthy f) :
+    K5.registersOncePerKey = true ∧
+    (ins.foldl (handleDone k outId) (initSt (keysOf args))).out = spec k ins := by
+  refine ⟨by decide, (fold_spec k outId ins (initSt (keysOf args)) hne rfl hnodup ?_ hx).1⟩
+  exact (List.perm_ext_iff_of_nodup (keysOf_nodup args) hnodup).2 (fun i => by rw [mem_keysOf]; exact hsame i)
+
+/-! Non-vacuity: three arguments, two distinct futures. -/
+example : keysOf [4, 4, 7] = [4, 7] := by decide
+
 end MoreExec.BoolOp
